@@ -33,6 +33,7 @@ F ==
     radix   |-> {"none", "8", "10", "2"},                    \* -LISTRADIX
     P       |-> BOOLEAN,                                     \* macro processor output
     M       |-> BOOLEAN,                                     \* macro definitions output
+    share   |-> {"none", "c", "p", "a"},                     \* share file for SHARED symbols: C / Pascal / assembler
     h       |-> BOOLEAN,                                     \* lower case hex (dropped for sources using \{...})
     split   |-> {"none", "dot", "colon"},                    \* -SPLITBYTE (dropped for sources using \{...})
     src     |-> {"argv", "ascmd", "keyfile", "ascmdkey"},    \* where the report options are given
@@ -42,9 +43,9 @@ F ==
     langvar |-> {"LANG", "LC_ALL"}                          \* variable carrying it
   ]
 
-Vectors == [ L : F.L, u : F.u, C : F.C, s : F.s, I : F.I, g : F.g, t : F.t, x : F.x, n : F.n, q : F.q, A : F.A, r : F.r, E : F.E, gnu : F.gnu, radix : F.radix, P : F.P, M : F.M, h : F.h, split : F.split, src : F.src, cwd : F.cwd, out : F.out, lang : F.lang, langvar : F.langvar ]
+Vectors == [ L : F.L, u : F.u, C : F.C, s : F.s, I : F.I, g : F.g, t : F.t, x : F.x, n : F.n, q : F.q, A : F.A, r : F.r, E : F.E, gnu : F.gnu, radix : F.radix, P : F.P, M : F.M, share : F.share, h : F.h, split : F.split, src : F.src, cwd : F.cwd, out : F.out, lang : F.lang, langvar : F.langvar ]
 
-Names == <<"L", "u", "C", "s", "I", "g", "t", "x", "n", "q", "A", "r", "E", "gnu", "radix", "P", "M", "h", "split",
+Names == <<"L", "u", "C", "s", "I", "g", "t", "x", "n", "q", "A", "r", "E", "gnu", "radix", "P", "M", "share", "h", "split",
            "src", "cwd", "out", "lang", "langvar">>
 NF == Len(Names)
 
@@ -99,11 +100,11 @@ PairwiseCovered ==
 \*            option value) pair is exercised, and over the corpus all vectors of the pairwise sample are used.
 Default == [L |-> "none", u |-> FALSE, C |-> FALSE, s |-> FALSE, I |-> FALSE, g |-> "none", t |-> "none", x |-> 0,
             n |-> FALSE, q |-> TRUE, A |-> FALSE, r |-> FALSE, E |-> "stderr", gnu |-> FALSE, radix |-> "none",
-            P |-> FALSE, M |-> FALSE, h |-> FALSE, split |-> "none", src |-> "argv", cwd |-> "parent",
+            P |-> FALSE, M |-> FALSE, share |-> "none", h |-> FALSE, split |-> "none", src |-> "argv", cwd |-> "parent",
             out |-> "default", lang |-> "C", langvar |-> "LANG"]
 AllOn   == [L |-> "L", u |-> TRUE, C |-> TRUE, s |-> TRUE, I |-> TRUE, g |-> "MAP", t |-> "511", x |-> 2,
             n |-> TRUE, q |-> TRUE, A |-> TRUE, r |-> TRUE, E |-> "file", gnu |-> TRUE, radix |-> "8",
-            P |-> TRUE, M |-> TRUE, h |-> TRUE, split |-> "dot", src |-> "ascmdkey", cwd |-> "srcdir",
+            P |-> TRUE, M |-> TRUE, share |-> "c", h |-> TRUE, split |-> "dot", src |-> "ascmdkey", cwd |-> "srcdir",
             out |-> "renamed", lang |-> "de_DE", langvar |-> "LC_ALL"]
 Singles == (UNION {{[Default EXCEPT ![Names[i]] = a] : a \in FactorVals(i)} : i \in 1..NF}) \ {Default}
 
